@@ -1,6 +1,7 @@
 import Driver.Util
 import FV.Model.Headers
 import FV.Model.Processor
+import FV.Model.Server
 
 /-
 Driver ops of C14.
@@ -13,6 +14,8 @@ Driver ops of C14.
       (protocol and mode — shared / simple = one connection, sep / http = one transport pair per
       request, conc = concurrent — do not enter the model's answer; the mode only selects how
       much of the per-request result the harness can observe)
+  srv - <proto> <gomaxprocs> <timing> <split> <conn>;<conn>;…   connections of the real simple server
+  frm <maxLen> <chunk hex>,<chunk hex>,…   the framed reader fed a chunked byte stream
   cw <k> <g>:<len>,<g>:<len>,…         a recorded trace of Write calls on the shared output
       of k concurrent goroutines, replayed through `step` (lock before a goroutine's first
       chunk, unlock after its last)
@@ -87,7 +90,8 @@ def showReply (r : ReplyMsg) : String :=
 `Process` is called directly; ok/err from the HTTP status; for a whole connection of the
 simple server the return value of its loop (nil at a clean end of input, else the first error). -/
 def showResults (mode : String) (clean : Bool) (rs : List (Res Unit)) : String :=
-  if mode == "simple" then (if clean || rs.all (·.isOk) then "ok" else "err")
+  if mode == "sock" then "conn"   -- a socket client does not see the return value of the server's loop
+  else if mode == "simple" then (if clean || rs.all (·.isOk) then "ok" else "err")
   else if mode == "http" then ",".intercalate (rs.map fun r => if r.isOk then "ok" else "err")
   else ",".intercalate (rs.map fun r => showRes (fun _ => "ok") r)
 
@@ -124,6 +128,21 @@ def stepProcessor (op : String) (args : List String) : Option String :=
     let conn := mode == "shared" || mode == "simple"
     let clean := rs.all fun r => (process stdProcMap r.1 r.2).2.isOk && positionKept stdProcMap r.1
     pure (showProcessed mode clean (if conn then processConn stdProcMap rs else processAll stdProcMap rs))
+  | "srv", [_, _proto, _gmp, _timing, _split, conns] => do
+    -- the real FSimpleServer on a loopback listener: connections separated by `;`, each a pipelined
+    -- request sequence; neither GOMAXPROCS, nor when the connections were opened relative to Serve(),
+    -- nor how the client cut its writes enters the answer
+    let cs ← (conns.splitOn ";").mapM fun c => if c == "." then some [] else (c.splitOn ",").mapM parseReq
+    let st := srvRun stdProcMap (cs.map ConnSt.init)
+      ((List.range cs.length).flatMap fun i => List.replicate ((cs[i]?.map List.length).getD 0) i)
+    pure (" ; ".intercalate (st.map fun c => showProcessed "sock" true c.out))
+  | "frm", [maxLen, chunks] => do
+    let maxLen ← maxLen.toNat?
+    let cs ← if chunks == "." then some [] else (chunks.splitOn ",").mapM unhex
+    let (fs, tail) := Chunked.feedAll maxLen (.pending []) cs
+    let showF (f : Bytes) : String := s!"{f.length}.{(f.foldl (fun a b => (a + b.toNat) % 65536) 0)}"
+    let t := match tail with | .pending b => s!"pending:{b.length}" | .bad => "bad"
+    pure s!"frames={if fs.isEmpty then "." else ",".intercalate (fs.map showF)} tail={t}"
   | "cw", [k, tr] => do
     let k ← k.toNat?
     let tr ← parseTrace tr
